@@ -2,6 +2,7 @@ package main
 
 import (
 	"fmt"
+	"github.com/ldclabs/cose/key"
 	"math"
 	"math/big"
 	"time"
@@ -225,6 +226,48 @@ func streamCwt(c *ctx) {
 			audBad = true
 		default:
 			m[3] = caud
+		}
+		// the same claim set as it arrives from a peer who also put text-keyed members named like the registered claims
+		// ("exp", "nbf", "iat", "iss", "aud", ...) next to the integer labels: decoded with ClaimsMap.UnmarshalCBOR, the
+		// decision is that of the integer-labelled claims alone
+		if i%3 == 0 {
+			wire := cwt.ClaimsMap{}
+			for a, b := range m {
+				wire[a] = b
+			}
+			far := uint64(o.nowSec + 1000000)
+			for _, tk := range []struct {
+				k string
+				v any
+			}{{"exp", far}, {"nbf", uint64(1)}, {"iat", uint64(1)}, {"iss", o.iss}, {"aud", o.aud}, {"sub", "s"}, {"cti", []byte{1}}} {
+				if c.r.bool() {
+					wire[tk.k] = tk.v
+				}
+			}
+			if b, err := key.MarshalCBOR(wire); err == nil {
+				var dm cwt.ClaimsMap
+				if derr := dm.UnmarshalCBOR(b); derr == nil {
+					var g1, g2 error
+					catch(func() { g1 = v.ValidateMap(dm) })
+					// reference: the integer-labelled members only, decoded the same way
+					only := cwt.ClaimsMap{}
+					for a, bb := range m {
+						only[a] = bb
+					}
+					if ob, err := key.MarshalCBOR(only); err == nil {
+						var om cwt.ClaimsMap
+						if om.UnmarshalCBOR(ob) == nil {
+							catch(func() { g2 = v.ValidateMap(om) })
+							c.eval()
+							c.nontriv(fmt.Sprintf("cwt-text-keys|%v", g1 == nil))
+							if (g1 == nil) != (g2 == nil) {
+								c.fail(failure{Op: "cwt.ValidateMap", What: "text-keyed members named like registered claims change the decision", Input: short(fmt.Sprintf("cwt-map-text-keys|claims=%x|now=%d|allow=%v|past=%v|skew=%d", b, o.nowSec, o.allow, o.past, o.skew)),
+									Observed: fmt.Sprintf("accept=%v", g1 == nil), Expected: fmt.Sprintf("accept=%v (the decision for %x)", g2 == nil, ob), Case: "cwt-map-text-keys", Theorem: "C18_validate_map_is_rfc8392"})
+							}
+						}
+					}
+				}
+			}
 		}
 		var got error
 		p, msg := catch(func() { got = v.ValidateMap(m) })
